@@ -4071,6 +4071,9 @@ class Wallet(object):
                                       locking_script=locking_script,
                                       sequence=sequence, locktime_cltv=locktime_cltv, locktime_csv=locktime_csv,
                                       witness_type=witness_type, key_path=key.path)
+            outpoints = [(i.prev_txid, i.output_n) for i in transaction.inputs]
+            if len(set(outpoints)) != len(outpoints):
+                raise WalletError("Input array contains the same output more than once")
         # Calculate fees
         transaction.fee = fee
         fee_per_output = None
